@@ -5,10 +5,21 @@
   * riscv constant materialisation                           riscv_consts(ctx, drv)
   * determine_arg_locations of arm / riscv                   arg_locations(ctx, drv)
 
-Each function (a) compares the Lean model (through the property's driver, `drv` = "C04"/"C05") with the real
-implementation and (b) evaluates the property itself on the real results with an independent Python check.
+Each check function returns `(request lines, finish)`: the lines go to the property's Lean driver (all parts in ONE
+driver start, see `run_parts`), `finish(replies)` (a) compares the Lean model with the real implementation and
+(b) evaluates the property itself on the real results with an independent Python check.
 """
 import itertools
+
+
+def run_parts(ctx, drv, parts):
+    """parts = [(request lines, finish)]: one driver start for all of them"""
+    lines = [l for reqs, _ in parts for l in reqs]
+    out = ctx.driver(drv, lines) if lines else []
+    k = 0
+    for reqs, finish in parts:
+        finish(out[k:k + len(reqs)])
+        k += len(reqs)
 
 
 # ------------------------------------------------------------------------------------------------
@@ -89,7 +100,8 @@ def eval_slots(ctx, where, mode, hist, stacksize, alignment, slots, case):
                  f"Frame.alignment = {alignment} after history {hist}", case)
 
 
-def frame_alloc(ctx, drv, modes=("top", "bottom"), n_random=None):
+def frame_alloc(ctx, modes=("top", "bottom"), n_random=None):
+    """-> (request lines, finish(replies))"""
     n_random = n_random if n_random is not None else (1500 if ctx.thorough else 150)
     hs = _histories(ctx, n_random)
     reqs, impl, meta = [], [], []
@@ -99,15 +111,17 @@ def frame_alloc(ctx, drv, modes=("top", "bottom"), n_random=None):
             reqs.append(f"alloc {mode} " + (",".join(f"{a}:{b}" for a, b in h) or "-"))
             impl.append(_fmt_alloc(stacksize, alignment, slots))
             meta.append((mode, h, stacksize, alignment, slots))
-    out = ctx.driver(drv, reqs)
-    for rq, i, m, (mode, h, stacksize, alignment, slots) in zip(reqs, impl, out, meta):
-        ctx.count("eval_frame_alloc_" + mode)
-        if len(h) > 2:
-            ctx.nontrivial(rq)
-        if i != m:
-            ctx.disagree("Frame.alloc", rq, i, m)
-        eval_slots(ctx, "Frame.alloc", mode, h, stacksize, alignment, slots, {"mode": mode, "history": h})
-    ctx.sample({"request": reqs[1], "impl": impl[1], "model": out[1]})
+
+    def finish(out):
+        for rq, i, m, (mode, h, stacksize, alignment, slots) in zip(reqs, impl, out, meta):
+            ctx.count("eval_frame_alloc_" + mode)
+            if len(h) > 2:
+                ctx.nontrivial(rq)
+            if i != m:
+                ctx.disagree("Frame.alloc", rq, i, m)
+            eval_slots(ctx, "Frame.alloc", mode, h, stacksize, alignment, slots, {"mode": mode, "history": h})
+        ctx.sample({"request": reqs[1], "impl": impl[1], "model": out[1]})
+    return reqs, finish
 
 
 class AllocCapture:
@@ -139,21 +153,21 @@ class AllocCapture:
             yield frame.name, mode, [(c[0], c[1]) for c in calls], [(c[2], c[3]) for c in calls], frame.stacksize, frame.alignment
 
 
-def captured_frames_check(ctx, drv, cap, tag):
-    """model correspondence + property for the Frame.alloc histories captured while compiling"""
+def captured_frames_check(ctx, cap, tag):
+    """model correspondence + property for the Frame.alloc histories captured while compiling -> (reqs, finish)"""
     items = list(cap.histories())
-    if not items:
-        return
     reqs = [f"alloc {mode} " + (",".join(f"{a}:{b}" for a, b in h) or "-") for _, mode, h, _, _, _ in items]
-    out = ctx.driver(drv, reqs)
-    for (name, mode, h, slots, stacksize, alignment), rq, m in zip(items, reqs, out):
-        ctx.count("eval_captured_frame_alloc")
-        if len(h) > 1:
-            ctx.nontrivial(("frame", tag, name, tuple(h)))
-        i = _fmt_alloc(stacksize, alignment, slots)
-        if i != m:
-            ctx.disagree(f"Frame.alloc (captured, {tag})", rq, i, m)
-        eval_slots(ctx, "Frame.alloc", mode, h, stacksize, alignment, slots, {"mode": mode, "history": h, "frame": name, "from": tag})
+
+    def finish(out):
+        for (name, mode, h, slots, stacksize, alignment), rq, m in zip(items, reqs, out):
+            ctx.count("eval_captured_frame_alloc")
+            if len(h) > 1:
+                ctx.nontrivial(("frame", tag, name, tuple(h)))
+            i = _fmt_alloc(stacksize, alignment, slots)
+            if i != m:
+                ctx.disagree(f"Frame.alloc (captured, {tag})", rq, i, m)
+            eval_slots(ctx, "Frame.alloc", mode, h, stacksize, alignment, slots, {"mode": mode, "history": h, "frame": name, "from": tag})
+    return reqs, finish
 
 
 # ------------------------------------------------------------------------------------------------
@@ -221,7 +235,7 @@ def abstract_stream(items):
     return toks
 
 
-def peephole_check(ctx, drv, streams, tag, expect_identity=False):
+def peephole_check(ctx, streams, tag, expect_identity=False):
     """streams = PeepCapture().streams.  Model correspondence and the property on the real streams:
     the output is the input minus some items; every dropped item is an unconditional jump whose
     target label is the item that follows it (after other dropped jumps to the same label) and that label
@@ -238,58 +252,58 @@ def peephole_check(ctx, drv, streams, tag, expect_identity=False):
             continue
         reqs.append("peep " + ",".join(toks))
         idx.append((n, toks))
-    if not reqs:
-        return
-    out = ctx.driver(drv, reqs)
-    for (n, toks), rq, m in zip(idx, reqs, out):
-        rec = streams[n]
-        ins, outs = rec["in"], rec["out"]
-        ctx.count("eval_peephole_stream")
-        # which input positions survived (by object identity, in order)
-        kept, j = [], 0
-        for i, it in enumerate(ins):
-            if j < len(outs) and outs[j] is it:
-                kept.append(i)
-                j += 1
-        case = {"from": tag, "stream": n, "items": len(ins)}
-        if j != len(outs):
-            ctx.fail("peephole:output-not-a-subsequence", f"{tag}: downstream received items that were never emitted / out of order", case)
-            continue
-        impl = "ok " + (",".join(toks[i] for i in kept) or "-") + " fn=1"
-        if impl != m:
-            ctx.disagree(f"PeepHoleStream ({tag})", rq[:300], impl[:300], m[:300])
-        dropped = [i for i in range(len(ins)) if i not in set(kept)]
-        if dropped:
-            ctx.nontrivial(("peep", tag, n, len(dropped)))
-            ctx.count("peephole_dropped_items", len(dropped))
-        if expect_identity and dropped:
-            ctx.fail("peephole:non-x86-stream-changed", f"{tag}: {len(dropped)} items dropped although no instruction has an effect()", case)
-        labels = [it.name for it in ins if isinstance(it, Label)]
-        for i in dropped:
-            a = ins[i]
-            if isinstance(a, Label) or not hasattr(a, "effect"):
-                ctx.fail("peephole:dropped-non-jump", f"{tag}: dropped {a!r}", case, index=i)
-                break
-            tgt = a.effect()[0][2]
-            if i + 1 >= len(ins):
-                ctx.fail("peephole:dropped-last-item", f"{tag}: dropped {a!r} at the end of the stream", case, index=i)
-                break
-            b = ins[i + 1]
-            if isinstance(b, Label):
-                if b.name != tgt:
-                    ctx.fail("peephole:dropped-jump-to-other-label", f"{tag}: dropped {a!r} in front of {b!r}", case, index=i)
+
+    def finish(out):
+        for (n, toks), rq, m in zip(idx, reqs, out):
+            rec = streams[n]
+            ins, outs = rec["in"], rec["out"]
+            ctx.count("eval_peephole_stream")
+            # which input positions survived (by object identity, in order)
+            kept, j = [], 0
+            for i, it in enumerate(ins):
+                if j < len(outs) and outs[j] is it:
+                    kept.append(i)
+                    j += 1
+            case = {"from": tag, "stream": n, "items": len(ins)}
+            if j != len(outs):
+                ctx.fail("peephole:output-not-a-subsequence", f"{tag}: downstream received items that were never emitted / out of order", case)
+                continue
+            impl = "ok " + (",".join(toks[i] for i in kept) or "-") + " fn=1"
+            if impl != m:
+                ctx.disagree(f"PeepHoleStream ({tag})", rq[:300], impl[:300], m[:300])
+            dropped = [i for i in range(len(ins)) if i not in set(kept)]
+            if dropped:
+                ctx.nontrivial(("peep", tag, n, len(dropped)))
+                ctx.count("peephole_dropped_items", len(dropped))
+            if expect_identity and dropped:
+                ctx.fail("peephole:non-x86-stream-changed", f"{tag}: {len(dropped)} items dropped although no instruction has an effect()", case)
+            labels = [it.name for it in ins if isinstance(it, Label)]
+            for i in dropped:
+                a = ins[i]
+                if isinstance(a, Label) or not hasattr(a, "effect"):
+                    ctx.fail("peephole:dropped-non-jump", f"{tag}: dropped {a!r}", case, index=i)
                     break
-                if labels.count(tgt) != 1:
-                    ctx.fail("peephole:dropped-jump-to-duplicated-label", f"{tag}: dropped {a!r}, label {tgt} is defined {labels.count(tgt)} times", case, index=i)
+                tgt = a.effect()[0][2]
+                if i + 1 >= len(ins):
+                    ctx.fail("peephole:dropped-last-item", f"{tag}: dropped {a!r} at the end of the stream", case, index=i)
                     break
-            elif hasattr(b, "effect") and b.effect() == a.effect():
-                pass
-            else:
-                ctx.fail("peephole:dropped-jump-not-followed-by-target", f"{tag}: dropped {a!r} in front of {b!r}", case, index=i)
-                break
+                b = ins[i + 1]
+                if isinstance(b, Label):
+                    if b.name != tgt:
+                        ctx.fail("peephole:dropped-jump-to-other-label", f"{tag}: dropped {a!r} in front of {b!r}", case, index=i)
+                        break
+                    if labels.count(tgt) != 1 and rec.get("unique", True):
+                        ctx.fail("peephole:dropped-jump-to-duplicated-label", f"{tag}: dropped {a!r}, label {tgt} is defined {labels.count(tgt)} times", case, index=i)
+                        break
+                elif hasattr(b, "effect") and b.effect() == a.effect():
+                    pass
+                else:
+                    ctx.fail("peephole:dropped-jump-not-followed-by-target", f"{tag}: dropped {a!r} in front of {b!r}", case, index=i)
+                    break
+    return reqs, finish
 
 
-def synthetic_peephole(ctx, drv, n):
+def synthetic_peephole(ctx, n):
     """random item streams through the REAL PeepHoleStream (x86-64 NearJump + Label + other instructions)"""
     from ppci.codegen.peephole import PeepHoleStream
     from ppci.arch.generic_instructions import Label, Comment
@@ -347,7 +361,7 @@ def const_values(ctx):
             vs.add(base + d)
             vs.add(-base + d)
     vs.update(range(-40, 41))
-    for _ in range(3000 if ctx.thorough else 300):
+    for _ in range(3000 if ctx.thorough else 60):
         b = rng.randint(1, 32)
         v = rng.getrandbits(b)
         vs.add(v)
@@ -357,7 +371,7 @@ def const_values(ctx):
     return sorted(vs)
 
 
-def riscv_consts(ctx, drv):
+def riscv_consts(ctx):
     """every CONST* leaf pattern of the riscv back-ends whose condition accepts a value is run on a stub context;
     the emitted instructions are encoded by ppci, decoded and executed by Spec.RV32 in the driver"""
     from ppci.api import get_arch
@@ -417,37 +431,39 @@ def riscv_consts(ctx, drv):
                 if kind:
                     reqs.append(f"const {kind} {rd.num} {v}")
                     meta.append(("model", march, p, v, rd.num, kind))
-    out = ctx.driver(drv, reqs)
-    last_dex = None
-    for rq, rep, (what, march, p, v, x, kind) in zip(reqs, out, meta):
-        name = p.method.__name__
-        case = {"march": march, "pattern": name, "tree": f"{p.tree.name}[{v}]"}
-        if what == "cond":
-            ctx.count("eval_riscv_const_condition")
-            mc = rep.rsplit("cond=", 1)[-1] == "1"
-            if mc != x:
-                ctx.disagree("pattern_consti32_2 condition", case, x, mc)
-        elif what == "dex":
-            ctx.count("eval_riscv_const")
-            ctx.nontrivial((march, name, p.tree.name, v))
-            last_dex = rep
-            if rep.startswith("ok undecodable"):
-                ctx.fail(f"riscv-const:{march}:{name}:undecodable", f"{p.tree.name}[{v}]: the emitted bytes {rq.split()[-1]} are not RV32IMC instructions ({rep})", case)
-                continue
-            val = rep.split(" val=")[1].split(" ")[0]
-            keep = rep.rsplit("keep=", 1)[-1]
-            if val != str(v % (1 << 32)):
-                ctx.fail(f"riscv-const:{march}:{name}:wrong-value",
-                         f"{p.tree.name}[{v}] materialised as `{rep[3:].split(' val=')[0]}` leaves {val} in the register, not {v % (1 << 32)}", case)
-            elif keep != "1":
-                ctx.fail(f"riscv-const:{march}:{name}:side-effect", f"{p.tree.name}[{v}]: `{rep[3:].split(' val=')[0]}` changes more than the destination register", case)
-        else:
-            ctx.count("eval_riscv_const_model")
-            mi = rep[3:].split(" val=")[0]
-            ri = last_dex[3:].split(" val=")[0] if last_dex else "?"
-            if mi != ri:
-                ctx.disagree(f"riscv constant ({name})", case, ri, mi)
-    ctx.sample({"request": reqs[-2], "reply": out[-2]})
+
+    def finish(out):
+        last_dex = None
+        for rq, rep, (what, march, p, v, x, kind) in zip(reqs, out, meta):
+            name = p.method.__name__
+            case = {"march": march, "pattern": name, "tree": f"{p.tree.name}[{v}]"}
+            if what == "cond":
+                ctx.count("eval_riscv_const_condition")
+                mc = rep.rsplit("cond=", 1)[-1] == "1"
+                if mc != x:
+                    ctx.disagree("pattern_consti32_2 condition", case, x, mc)
+            elif what == "dex":
+                ctx.count("eval_riscv_const")
+                ctx.nontrivial((march, name, p.tree.name, v))
+                last_dex = rep
+                if rep.startswith("ok undecodable"):
+                    ctx.fail(f"riscv-const:{march}:{name}:undecodable", f"{p.tree.name}[{v}]: the emitted bytes {rq.split()[-1]} are not RV32IMC instructions ({rep})", case)
+                    continue
+                val = rep.split(" val=")[1].split(" ")[0]
+                keep = rep.rsplit("keep=", 1)[-1]
+                if val != str(v % (1 << 32)):
+                    ctx.fail(f"riscv-const:{march}:{name}:wrong-value",
+                             f"{p.tree.name}[{v}] materialised as `{rep[3:].split(' val=')[0]}` leaves {val} in the register, not {v % (1 << 32)}", case)
+                elif keep != "1":
+                    ctx.fail(f"riscv-const:{march}:{name}:side-effect", f"{p.tree.name}[{v}]: `{rep[3:].split(' val=')[0]}` changes more than the destination register", case)
+            else:
+                ctx.count("eval_riscv_const_model")
+                mi = rep[3:].split(" val=")[0]
+                ri = last_dex[3:].split(" val=")[0] if last_dex else "?"
+                if mi != ri:
+                    ctx.disagree(f"riscv constant ({name})", case, ri, mi)
+        ctx.sample({"request": reqs[-2], "reply": out[-2]})
+    return reqs, finish
 
 
 # ------------------------------------------------------------------------------------------------
@@ -476,7 +492,7 @@ def _aty(arch, t):
     return f"{k}{getattr(t, 'size', isz)}/{isz}"
 
 
-def arg_locations(ctx, drv):
+def arg_locations(ctx):
     from ppci.api import get_arch
     from ppci.arch.stack import StackLocation
     configs = [("arm", "arm", None), ("arm:thumb", "arm", None), ("riscv", "riscv", "0"), ("riscv:rvf", "riscv", "1"), ("riscv:rvc", "riscv", "0")]
@@ -504,29 +520,152 @@ def arg_locations(ctx, drv):
             tys = ",".join(_aty(arch, t) for t in sig) or "-"
             reqs.append(f"args {fam} {tys}" if rvf is None else f"args {fam} {rvf} {tys}")
             meta.append((march, sig, locs, toks))
-    out = ctx.driver(drv, reqs)
-    for rq, rep, (march, sig, locs, toks) in zip(reqs, out, meta):
-        ctx.count("eval_arg_locations_" + march.replace(":", "_"))
-        if len(sig) > 4:
-            ctx.nontrivial(rq)
-        impl = "ok " + (",".join(toks) or "-")
-        if rep.rsplit(" distinct=", 1)[0] != impl:
-            ctx.disagree(f"determine_arg_locations ({march})", rq, impl, rep)
-        # the property on the real locations
-        case = {"march": march, "types": [str(t) for t in sig]}
-        bad = None
-        for (i, a), (j, b) in itertools.combinations(enumerate(locs), 2):
-            sa, sb = isinstance(a, StackLocation), isinstance(b, StackLocation)
-            if sa and sb:
-                if not (a.offset + a.size <= b.offset or b.offset + b.size <= a.offset):
-                    bad = (i, j, "stack-slots-overlap")
-            elif not sa and not sb:
-                if a is b or (type(a) is type(b) and a.num == b.num):
-                    bad = (i, j, "same-register")
+
+    def finish(out):
+        for rq, rep, (march, sig, locs, toks) in zip(reqs, out, meta):
+            ctx.count("eval_arg_locations_" + march.replace(":", "_"))
+            if len(sig) > 4:
+                ctx.nontrivial(rq)
+            impl = "ok " + (",".join(toks) or "-")
+            if rep.rsplit(" distinct=", 1)[0] != impl:
+                ctx.disagree(f"determine_arg_locations ({march})", rq, impl, rep)
+            # the property on the real locations
+            case = {"march": march, "types": [str(t) for t in sig]}
+            bad = None
+            for (i, a), (j, b) in itertools.combinations(enumerate(locs), 2):
+                sa, sb = isinstance(a, StackLocation), isinstance(b, StackLocation)
+                if sa and sb:
+                    if not (a.offset + a.size <= b.offset or b.offset + b.size <= a.offset):
+                        bad = (i, j, "stack-slots-overlap")
+                elif not sa and not sb:
+                    if a is b or (type(a) is type(b) and a.num == b.num):
+                        bad = (i, j, "same-register")
+                if bad:
+                    break
             if bad:
-                break
-        if bad:
-            i, j, why = bad
-            ctx.fail(f"determine_arg_locations:{march}:{why}",
-                     f"{march}: arguments {i} and {j} of ({', '.join(str(t) for t in sig)}) are at {locs[i]} and {locs[j]}", case)
-    ctx.extra_cov["arg_locations_exhaustive_up_to"] = maxn
+                i, j, why = bad
+                ctx.fail(f"determine_arg_locations:{march}:{why}",
+                         f"{march}: arguments {i} and {j} of ({', '.join(str(t) for t in sig)}) are at {locs[i]} and {locs[j]}", case)
+        ctx.extra_cov["arg_locations_exhaustive_up_to"] = maxn
+    return reqs, finish
+
+
+# ------------------------------------------------------------------------------------------------
+# riscv: operations with an immediate operand (ADD/AND/OR/XOR/SHL/SHR of a register and a constant)
+# ------------------------------------------------------------------------------------------------
+
+def _marked(i):
+    """register contents of `markedState` in lean/PpciVerif/Model/CodegenProto.lean"""
+    return (0xA5000000 if i % 2 else 0x5A000000) + (i * 0x01010101) % 0x1000000
+
+
+def _ir_binop(op, signed, a, v):
+    """Spec.IRArith semantics of a 32-bit binop on the register value `a` (unsigned 32-bit pattern) and constant `v`"""
+    M = 1 << 32
+    b = v % M
+    if op == "ADD":
+        return (a + b) % M
+    if op == "SUB":
+        return (a - b) % M
+    if op == "AND":
+        return a & b
+    if op == "OR":
+        return a | b
+    if op == "XOR":
+        return a ^ b
+    if op == "SHL":
+        return (a << v) % M
+    if op == "SHR":
+        if signed:
+            sa = a - M if a >> 31 else a
+            return (sa >> v) % M
+        return a >> v
+    raise KeyError(op)
+
+
+def riscv_imm_patterns(ctx):
+    """every pattern `OP(reg, CONST)` / `OP(CONST, reg)` of the riscv back-ends, on every constant its condition accepts:
+    the emitted instructions are decoded and executed by Spec.RV32; the result must be OP(register, constant) as the IR defines it"""
+    import re
+    from ppci.api import get_arch
+    from ppci.utils.tree import Tree
+    from ppci.arch.riscv import registers as R
+    from ppci.arch.generic_instructions import ArtificialInstruction
+    vals = const_values(ctx)
+    reqs, meta = [], []
+    for march in ("riscv", "riscv:rvc"):
+        arch = get_arch(march)
+        for p in arch.isa.patterns:
+            t = p.tree
+            if len(t.children) != 2 or p.non_term != "reg":
+                continue
+            names = [c.name for c in t.children]
+            ci = [k for k, n in enumerate(names) if n in CONST_RANGES]
+            if len(ci) != 1 or names[1 - ci[0]] != "reg":
+                continue
+            m = re.match(r"([A-Z]+?)([IU])(8|16|32)$", t.name)
+            if not m or m.group(1) not in ("ADD", "SUB", "AND", "OR", "XOR", "SHL", "SHR"):
+                continue
+            op, signed, bits = m.group(1), m.group(2) == "I", int(m.group(3))
+            lo, hi = CONST_RANGES[names[ci[0]]]
+            if op in ("SHL", "SHR"):
+                lo, hi = 0, bits - 1          # other counts are undefined behaviour in the IR
+            for v in vals:
+                for src in ((R.R11, R.R12, R.R15) if ctx.thorough else (ctx.rng.choice((R.R11, R.R12, R.R15)),)):
+                    if not lo <= v <= hi:
+                        continue
+                    kids = [None, None]
+                    kids[ci[0]] = Tree(names[ci[0]], value=v)
+                    kids[1 - ci[0]] = Tree("reg")
+                    tree = Tree(t.name, *kids)
+                    try:
+                        if p.condition is not None and not p.condition(tree):
+                            continue
+                    except Exception as e:  # noqa
+                        ctx.fail(f"riscv-imm:{march}:{p.method.__name__}:condition-raises", f"{type(e).__name__} for {t.name} with constant {v}", {"march": march, "tree": str(t), "value": v})
+                        break
+                    rd = R.R10
+
+                    class Stub:
+                        def __init__(self):
+                            self.ins = []
+
+                        def new_reg(self, cls):
+                            return rd
+
+                        def emit(self, i):
+                            self.ins.append(i)
+                            return i
+                    stub = Stub()
+                    case = {"march": march, "pattern": p.method.__name__, "tree": f"{t.name} constant {v}", "source": src.name}
+                    try:
+                        p.method(stub, tree, src)
+                        code = bytearray()
+                        for i in stub.ins:
+                            for j in (i.render() if isinstance(i, ArtificialInstruction) else [i]):
+                                code += j.encode()
+                    except Exception as e:  # noqa
+                        ctx.fail(f"riscv-imm:{march}:{p.method.__name__}:raises",
+                                 f"{t.name} with constant {v} is accepted by the pattern condition but emitting it raised {type(e).__name__}: {e}", case)
+                        continue
+                    a = _marked(src.num)
+                    if bits < 32:        # narrow values: only the low bits of the register are meaningful
+                        continue
+                    reqs.append(f"dex {rd.num} {bytes(code).hex()}")
+                    meta.append((march, p, t.name, v, _ir_binop(op, signed, a, v), case))
+
+    def finish(out):
+        for rq, rep, (march, p, tname, v, want, case) in zip(reqs, out, meta):
+            ctx.count("eval_riscv_imm")
+            ctx.nontrivial((march, p.method.__name__, tname, v))
+            name = p.method.__name__
+            if rep.startswith("ok undecodable"):
+                ctx.fail(f"riscv-imm:{march}:{name}:undecodable", f"{tname} with constant {v}: emitted bytes {rq.split()[-1]} are not RV32IMC instructions", case)
+                continue
+            val = rep.split(" val=")[1].split(" ")[0]
+            if val != str(want):
+                ctx.fail(f"riscv-imm:{march}:{name}:wrong-value",
+                         f"{tname}(reg, {v}) emitted as `{rep[3:].split(' val=')[0]}` computes {val}, the IR operation gives {want}", case)
+            elif rep.rsplit("keep=", 1)[-1] != "1":
+                ctx.fail(f"riscv-imm:{march}:{name}:side-effect", f"{tname}(reg, {v}): `{rep[3:].split(' val=')[0]}` changes more than the destination", case)
+    return reqs, finish
